@@ -16,6 +16,15 @@ CLAIMED = {
  "C12": dict(text="Effect analysis over the whole type-checked crate: no unsafe, no static mut, statics only from tracing/lazy_static expansions, no interior mutability or thread-locals in own types, no ambient-input calls, matching takes the rule by shared reference, every hash-container iteration in engine code is collected into a map/set or folded commutatively, and (configuration diff) the sync feature changes only trait bounds. Absence of these constructs covers every schedule, history and process at once.",
              note="Trusts regex/aho-corasick internal caches and tracing to be observationally pure; user Document impls are pure.",
              tech="static analysis: effect / purity lint over THIR + item tables, hash-iteration dataflow rule, two-configuration body diff", ref="4/C12"),
+ "C13": dict(text="validate() is short enough that its agreement with matches() is a matter of shape: two loops over true_positives/true_negatives, each evaluating the example once with the same callee and detection as Rule::matches, polarity per list, a pushed message naming the example on every failing path (malformed, non-mapping example included), Err(Validation) iff errors non-empty else Ok(true), and no panic-capable site in the function (THIR and MIR). Optimised rules use the same code because optimise() only replaces the tree inside self.detection.",
+             note="Panics inside the solver belong to C03. A behaviour-preserving refactor of validate into helpers would be reported (fail closed).",
+             tech="static analysis: structural path rule over the typed tree of Rule::validate + MIR panic-site scan", ref="4/C13"),
+ "C15": dict(text="Both builds are type-checked and compared function by function: they must differ in exactly one function (String::into_identifier), in exactly one leaf (the boolean cfg!(feature=\"ignore_case\") expands to), and that boolean must only select between (true, text) and the default build's strip_prefix('i') head; items/signatures identical. Then the ignore_case build on p constructs exactly what the default build constructs on 'i'+p and everything else is the same program. Close to a proof of the property, modulo the compiler front end.",
+             note="Thorough tier repeats the diff for all 8 feature-set pairs that differ by ignore_case.",
+             tech="static analysis: two-configuration diff of typed trees (THIR) and MIR skeletons + head-shape rule", ref="3.6, 4/C15"),
+ "C16": dict(text="Provenance analysis of the solver: every find() key is derived from the rule tree and its receiver from the document; every recursive call hands on the document, an addressed object, or the private Cache/Passthrough; matrix cells (synthetic keys) are evaluated only against Cache/Passthrough; cache slot i is filled from find(&columns[i]); no keys()/len() enumeration; Cache/Passthrough private; in the optimiser the synthetic key's def-use chain ends in Expression::Matrix. Hence the verdict is a function of addressed values only and synthetic keys never reach the user's document.",
+             note="Assumes user Document/Object/Array impls are pure functions of their arguments.",
+             tech="static analysis: intra-procedural provenance (origin) dataflow over THIR bindings + def-use rule in optimiser::matrix + visibility facts", ref="3.5 PROV, 4/C16"),
 }
 PENDING = {}
 props = [json.loads(l) for l in open(os.path.join(V, "properties.jsonl"))]
